@@ -568,7 +568,7 @@ func (r *RootAssertionNode) getFuncReturnProducers(ident *ast.Ident, expr *ast.C
 			// Creates a new return site with location information at every call site for a
 			// function with contracts. The return site is unique at every call site, even with the
 			// same function called.
-			retKey = annotation.NewCallSiteRetKey(funcObj, i, r.LocationOf(expr))
+			retKey = annotation.NewCallSiteRetKey(funcObj, i, r.CallSiteLocationOf(expr))
 		} else {
 			retKey = annotation.RetKeyFromRetNum(funcObj, i)
 		}
